@@ -31,7 +31,7 @@ def run(ctx):
             err.append(e)
 
     th = threading.Thread(target=model)
-    conf = {'cases': 6, 'texts': 8, 'max_per_field': 8} if ctx.quick else {'cases': 10 ** 6, 'texts': 110, 'max_per_field': 14}
+    conf = {'cases': 6, 'texts': 8, 'max_per_field': 15} if ctx.quick else {'cases': 10 ** 6, 'texts': 110, 'max_per_field': 15}
     specs = sh.trace_specs(ctx, 'c08', 1)
     specs += sh.trace_specs(ctx, 'texts', 1 if ctx.quick else 2, base=len(specs))
     res = sh.generate(specs, conf, nproc=6 if ctx.quick else 14)
